@@ -136,6 +136,44 @@ func judge(p docgen.Plan, o *vh.Obs) {
 			}
 		}
 		sumLines.Add(sumLines, f.rat(lp+".total"))
+		// breakdown and substituted rows are lines of their own: the same identity,
+		// and no more decimals than the currency, their own price or the line's
+		for _, kind := range []string{"breakdown", "substituted"} {
+			for j := 0; has(f, fmt.Sprintf("%s.%s[%d].total", lp, kind, j)); j++ {
+				sp := fmt.Sprintf("%s.%s[%d]", lp, kind, j)
+				o.Class("sub-line")
+				subMax := maxDec
+				if d, ok := f.dec(sp + ".item.price"); ok && d.Exp > subMax {
+					subMax = d.Exp
+				}
+				sw := f.rat(sp + ".sum")
+				for k := 0; has(f, fmt.Sprintf("%s.discounts[%d].amount", sp, k)); k++ {
+					path := fmt.Sprintf("%s.discounts[%d].amount", sp, k)
+					sw.Sub(sw, f.rat(path))
+					if d, _ := f.dec(path); d.Exp > subMax {
+						o.Failf("decimals:sub-line-discount", "%s = %s carries more decimals than the currency (%d) and the prices allow (%d)", path, f[path], c, subMax)
+						return
+					}
+				}
+				for k := 0; has(f, fmt.Sprintf("%s.charges[%d].amount", sp, k)); k++ {
+					path := fmt.Sprintf("%s.charges[%d].amount", sp, k)
+					sw.Add(sw, f.rat(path))
+					if d, _ := f.dec(path); d.Exp > subMax {
+						o.Failf("decimals:sub-line-charge", "%s = %s carries more decimals than the currency (%d) and the prices allow (%d)", path, f[path], c, subMax)
+						return
+					}
+				}
+				if !eq("sub-line-total", sp+".total = sum - discounts + charges", f.rat(sp+".total"), sw) {
+					return
+				}
+				for _, k := range []string{".sum", ".total"} {
+					if d, _ := f.dec(sp + k); d.Exp > subMax {
+						o.Failf("decimals:sub-line", "%s%s = %s carries more decimals than the currency (%d) and the prices allow (%d)", sp, k, f[sp+k], c, subMax)
+						return
+					}
+				}
+			}
+		}
 	}
 	if !has(f, "totals.sum") {
 		if anyLine {
